@@ -375,6 +375,7 @@ func (x *g) genNestedViewTypes() {
 		{Name: "primary", Type: ref(), View: attrView},
 		{Name: "secondary", Type: ref()},
 		{Name: "others", Type: &spec.Type{Kind: spec.Array, Elem: &spec.Attr{Type: ref()}}},
+		{Name: "extras", Type: &spec.Type{Kind: spec.Array, Elem: &spec.Attr{Type: ref()}}},
 		{Name: "label", Type: &spec.Type{Kind: spec.String}},
 	}
 	lv := []string{"", "tiny", "extended", "default"}
@@ -400,8 +401,8 @@ func (x *g) genNestedViewTypes() {
 	}
 	parent.Views = []*spec.View{
 		mk("default", "primary", "secondary", "label"),
-		mk("tiny", "primary", "others"),
-		mk("extended", "primary", "secondary", "others", "label"),
+		mk("tiny", "primary", "others", "extras"),
+		mk("extended", "primary", "secondary", "others", "extras", "label"),
 	}
 	x.s.Types = append(x.s.Types, parent)
 	x.s.AddFeature("result-type", "multi-view", "nested-view-override", "nested-views-same-type")
